@@ -21,62 +21,10 @@ The RFC 7932 specification side (`canonicalCodes`, `rfcExpandCodeLengths`,
 `kraftSum`, the readers) is at the end of this file and is written
 independently of the encoder functions.
 -/
-import BV.Gen.Source
-import BV.Model.Bits
+import BV.Model.HuffmanFast
 
 namespace BV.Huffman
 open BV.Gen BV.Bits
-
-/-! ## integer casts -/
-
-/-- `x as i16` for a non-negative `x` -/
-def asI16 (x : Nat) : Int :=
-  if x % 65536 < 32768 then ((x % 65536 : Nat) : Int) else ((x % 65536 : Nat) : Int) - 65536
-
-/-- `x as i32` for a non-negative `x` -/
-def asI32 (x : Nat) : Int :=
-  if x % 4294967296 < 2147483648 then ((x % 4294967296 : Nat) : Int)
-  else ((x % 4294967296 : Nat) : Int) - 4294967296
-
-/-- `x as usize` for a signed 16/32-bit `x` (sign extension to 64 bits) -/
-def asUsize (x : Int) : Nat :=
-  if 0 ≤ x then x.toNat else 18446744073709551616 - (-x).toNat
-
-/-! ## `HuffmanTree` nodes -/
-
-/-- `struct HuffmanTree { total_count_: u32, index_left_: i16, index_right_or_value_: i16 }` -/
-structure Node where
-  count : Nat
-  left : Int
-  right : Int
-deriving DecidableEq, Repr, Inhabited
-
-/-- `HuffmanTree::new(u32::MAX, -1, -1)` -/
-def sentinel : Node := ⟨4294967295, -1, -1⟩
-
-/-! ## `BrotliSetDepth` -/
-
-/-- The `loop` of `BrotliSetDepth`.  The fixed `stack: [i32; 16]` together with
-`level` is the list `stack` of length `level + 1`, head = `stack[level]`
-(entries above `level` are never read before they are rewritten: `stack[level]`
-is written at every `level += 1`).  One unit of fuel per visited node.
-Returns the `bool` result and `depth`. -/
-def setDepthLoop (pool : List Node) (maxDepth : Int) :
-    Nat → Int → List Int → List Nat → Out (Bool × List Nat)
-  | 0, _, _, _ => .fuel
-  | f + 1, p, stack, depth => do
-    let node ← getAt pool (asUsize p)
-    if node.left ≥ 0 then
-      -- `level += 1`: the new level is `stack.length`
-      if (stack.length : Int) > maxDepth then .ok (false, depth)
-      else if stack.length ≥ 16 then .panic            -- `stack[level as usize]`, `[i32; 16]`
-      else setDepthLoop pool maxDepth f node.left (node.right :: stack) depth
-    else
-      let depth ← setAt depth (asUsize node.right) ((stack.length - 1) % 256)
-      -- `while level >= 0 && stack[level] == -1 { level -= 1 }`
-      match stack.dropWhile (· == -1) with
-      | [] => .ok (true, depth)
-      | q :: rest => setDepthLoop pool maxDepth f q (-1 :: rest) depth
 
 /-- fuel of `setDepthLoop`: a traversal limited to `max_depth ≤ 15` levels visits
 fewer than `2^16` nodes, whatever the pool contains -/
@@ -86,90 +34,6 @@ def setDepthFuel : Nat := 65536
 def setDepth (p0 : Int) (pool : List Node) (depth : List Nat) (maxDepth : Int) :
     Out (Bool × List Nat) :=
   setDepthLoop pool maxDepth setDepthFuel p0 [-1] depth
-
-/-! ## `SortHuffmanTreeItems` -/
-
-/-- `SortHuffmanTree::Cmp` -/
-def cmpSort (a b : Node) : Bool :=
-  if a.count ≠ b.count then a.count < b.count else a.right > b.right
-
-/-- `SimpleSortHuffmanTree::Cmp` (`brotli_bit_stream.rs`) -/
-def cmpSimple (a b : Node) : Bool := a.count < b.count
-
-/-- `while j >= gap && cmp(tmp, items[j - gap]) { items[j] = items[j - gap]; j -= gap }`.
-Fuel `j + 1` always suffices when `gap ≥ 1`. -/
-def gapShift (cmp : Node → Node → Bool) (tmp : Node) (gap : Nat) :
-    Nat → List Node → Nat → Out (List Node × Nat)
-  | 0, _, _ => .fuel
-  | f + 1, items, j =>
-    if j ≥ gap then do
-      let x ← getAt items (j - gap)
-      if cmp tmp x then do
-        let items ← setAt items j x
-        gapShift cmp tmp gap f items (j - gap)
-      else .ok (items, j)
-    else .ok (items, j)
-
-/-- body of `for i in gap..n`: `tmp = items[i]; …shift…; items[j] = tmp` -/
-def gapInsert (cmp : Node → Node → Bool) (gap : Nat) (items : List Node) (i : Nat) :
-    Out (List Node) := do
-  let tmp ← getAt items i
-  let (items, j) ← gapShift cmp tmp gap (i + 1) items i
-  setAt items j tmp
-
-/-- `for i in gap..n { … }` as `cnt = n - gap` iterations from `i = gap` -/
-def gapPass (cmp : Node → Node → Bool) (gap : Nat) : Nat → Nat → List Node → Out (List Node)
-  | 0, _, items => .ok items
-  | c + 1, i, items => do
-    let items ← gapInsert cmp gap items i
-    gapPass cmp gap c (i + 1) items
-
-/-- `while g < 6 { gap = gaps[g]; …; g += 1 }` over the remaining gaps -/
-def shellPasses (cmp : Node → Node → Bool) (n : Nat) : List Nat → List Node → Out (List Node)
-  | [], items => .ok items
-  | gap :: gs, items => do
-    let items ← gapPass cmp gap (n - gap) gap items
-    shellPasses cmp n gs items
-
-/-- `SortHuffmanTreeItems(items, n, comparator)`.
-The `n < 13` branch (`k = i; j = i - 1; while cmp(tmp, items[j]) { items[k] =
-items[j]; k = j; if j-- == 0 break }; items[k] = tmp`) is the gapped insertion
-with `gap = 1` (there `k = j + 1` throughout, the `break` is `j ≥ gap` failing). -/
-def sortItems (cmp : Node → Node → Bool) (items : List Node) (n : Nat) : Out (List Node) :=
-  if n < 13 then gapPass cmp 1 (n - 1) 1 items
-  else shellPasses cmp n (kShellGaps.drop (if n < 57 then 2 else 0)) items
-
-/-! ## `BrotliCreateHuffmanTree` -/
-
-/-- `i = length; while i != 0 { i -= 1; if data[i] != 0 { tree[n] = new(max(data[i],
-count_limit), -1, i as i16); n += 1 } }` -/
-def collectLeaves (data : List Nat) (countLimit : Nat) :
-    Nat → List Node → Nat → Out (List Node × Nat)
-  | 0, tree, n => .ok (tree, n)
-  | i + 1, tree, n => do
-    let d ← getAt data i
-    if d ≠ 0 then
-      let tree ← setAt tree n ⟨max d countLimit, -1, asI16 i⟩
-      collectLeaves data countLimit i tree (n + 1)
-    else collectLeaves data countLimit i tree n
-
-/-- `while k != 0 { … k -= 1 }`: the two-queue merge.  `i` walks the sorted
-leaves, `j` the internal nodes; the node created at step `k` is `tree[2n - k]`. -/
-def mergeLoop (n : Nat) : Nat → List Node → Nat → Nat → Out (List Node)
-  | 0, tree, _, _ => .ok tree
-  | k + 1, tree, i, j => do
-    let ti ← getAt tree i
-    let tj ← getAt tree j
-    let (left, i, j) := if ti.count ≤ tj.count then (i, i + 1, j) else (j, i, j + 1)
-    let ti ← getAt tree i
-    let tj ← getAt tree j
-    let (right, i, j) := if ti.count ≤ tj.count then (i, i + 1, j) else (j, i, j + 1)
-    let jEnd := 2 * n - (k + 1)
-    let tl ← getAt tree left
-    let tr ← getAt tree right
-    let tree ← setAt tree jEnd ⟨(tl.count + tr.count) % 4294967296, asI16 left, asI16 right⟩
-    let tree ← setAt tree (jEnd + 1) sentinel
-    mergeLoop n k tree i j
 
 /-- One round of the `'break1` loop after the leaves are collected (`n ≥ 2`):
 sort, sentinels, merge.  Shared with `BrotliBuildAndStoreHuffmanTreeFast`
@@ -222,96 +86,131 @@ def u64 : Nat := 18446744073709551616
 /-- `(256u32).wrapping_mul(a.wrapping_add(b).wrapping_add(c)).wrapping_div(3).wrapping_add(420) as usize` -/
 def rleLimit3 (a b c : Nat) : Nat := ((256 * ((a + b + c) % u32)) % u32 / 3 + 420) % u32
 
-/-- `BrotliOptimizeHuffmanCountsForRle(length, counts, good_for_rle)`; returns `counts`. -/
-def optimizeHuffmanCountsForRle (length0 : Nat) (counts0 : List Nat) (goodForRle0 : List Nat) :
-    Out (List Nat) := do
-  let mut counts := counts0
-  let mut length := length0
-  let streakLimit := 1240
-  let mut nonzeroCount := 0
-  for i in [0:length] do
-    let c ← getAt counts i
-    if c ≠ 0 then nonzeroCount := nonzeroCount + 1
-  if nonzeroCount < 16 then return counts
-  -- `while length != 0 && counts[length - 1] == 0 { length -= 1 }`
-  for _ in [0:length0] do
-    if length ≠ 0 then
-      let c ← getAt counts (length - 1)
-      if c = 0 then length := length - 1
-  if length = 0 then return counts
-  let mut nonzeros := 0
-  let mut smallestNonzero := 1073741824
-  for i in [0:length] do
-    let c ← getAt counts i
-    if c ≠ 0 then
-      nonzeros := nonzeros + 1
-      if smallestNonzero > c then smallestNonzero := c
-  if nonzeros < 5 then return counts
-  if smallestNonzero < 4 then
-    let zeros := length - nonzeros
-    if zeros < 6 then
-      for i in [1:length - 1] do
-        let a ← getAt counts (i - 1)
-        let b ← getAt counts i
-        let c ← getAt counts (i + 1)
-        if a ≠ 0 ∧ b = 0 ∧ c ≠ 0 then counts ← setAt counts i 1
-  if nonzeros < 28 then return counts
-  let mut good := goodForRle0.map (fun _ => 0)
-  let mut symbol ← getAt counts 0
-  let mut step := 0
-  for i in [0:length + 1] do
-    let ci ← (if i = length then pure symbol else getAt counts i)
+/-- `for i in 0..length { if counts[i] != 0 { nonzero_count += 1 } }` -/
+def countNonzeroLoop (counts : List Nat) : Nat → Nat → Nat → Out Nat
+  | 0, _, acc => .ok acc
+  | c + 1, i, acc => do
+    let x ← getAt counts i
+    countNonzeroLoop counts c (i + 1) (if x ≠ 0 then acc + 1 else acc)
+
+/-- `while length != 0 && counts[length - 1] == 0 { length -= 1 }` -/
+def trimLoop (counts : List Nat) : Nat → Out Nat
+  | 0 => .ok 0
+  | l + 1 => do
+    let c ← getAt counts l
+    if c = 0 then trimLoop counts l else .ok (l + 1)
+
+/-- `nonzeros` and `smallest_nonzero` over `counts[..length]` -/
+def smallestLoop (counts : List Nat) : Nat → Nat → Nat → Nat → Out (Nat × Nat)
+  | 0, _, nz, sm => .ok (nz, sm)
+  | c + 1, i, nz, sm => do
+    let x ← getAt counts i
+    if x ≠ 0 then smallestLoop counts c (i + 1) (nz + 1) (if sm > x then x else sm)
+    else smallestLoop counts c (i + 1) nz sm
+
+/-- `for i in 1..length - 1 { if counts[i-1] != 0 && counts[i] == 0 && counts[i+1] != 0 { counts[i] = 1 } }` -/
+def fillLoop : Nat → Nat → List Nat → Out (List Nat)
+  | 0, _, counts => .ok counts
+  | c + 1, i, counts => do
+    let a ← getAt counts (i - 1)
+    let b ← getAt counts i
+    let d ← getAt counts (i + 1)
+    let counts ← (if a ≠ 0 ∧ b = 0 ∧ d ≠ 0 then setAt counts i 1 else Out.ok counts)
+    fillLoop c (i + 1) counts
+
+/-- `for k in 0..cnt { arr[i.wrapping_sub(k).wrapping_sub(1)] = v }` (from `k`) -/
+def setRun (i v : Nat) : Nat → Nat → List Nat → Out (List Nat)
+  | 0, _, arr => .ok arr
+  | c + 1, k, arr => do
+    let arr ← setAt arr ((i + u64 - k + u64 - 1) % u64) v
+    setRun i v c (k + 1) arr
+
+/-- the loop that marks in `good_for_rle` the runs that are already good (`i` in `0..=length`) -/
+def markLoop (counts : List Nat) (length : Nat) :
+    Nat → Nat → Nat → Nat → List Nat → Out (List Nat)
+  | 0, _, _, _, good => .ok good
+  | c + 1, i, symbol, step, good => do
+    let ci ← (if i = length then Out.ok symbol else getAt counts i)
     if i = length ∨ ci ≠ symbol then
-      if (symbol = 0 ∧ step ≥ 5) ∨ (symbol ≠ 0 ∧ step ≥ 7) then
-        for k in [0:step] do
-          -- `good_for_rle[i.wrapping_sub(k).wrapping_sub(1)]`
-          good ← setAt good ((i + u64 - k + u64 - 1) % u64) 1
-      step := 1
-      if i ≠ length then symbol := ci
-    else step := step + 1
-  let mut stride := 0
-  let c0 ← getAt counts 0
-  let c1 ← getAt counts 1
-  let c2 ← getAt counts 2
-  let mut limit := rleLimit3 c0 c1 c2
-  let mut sum := 0
-  for i in [0:length + 1] do
-    -- short-circuit `||` chain
-    let mut brk : Bool := decide (i = length)
-    if ¬ brk then
-      let g ← getAt good i
-      brk := decide (g ≠ 0)
-    if ¬ brk ∧ i ≠ 0 then
-      let g ← getAt good (i - 1)
-      brk := decide (g ≠ 0)
-    if ¬ brk then
-      let c ← getAt counts i
-      brk := decide (((256 * c) % u32 + u64 - limit % u64 + streakLimit) % u64 ≥ 2 * streakLimit)
-    if brk then
-      if stride ≥ 4 ∨ (stride ≥ 3 ∧ sum = 0) then
-        let mut count := ((sum + stride / 2) % u64) / stride
-        if count = 0 then count := 1
-        if sum = 0 then count := 0
-        for k in [0:stride] do
-          counts ← setAt counts ((i + u64 - k + u64 - 1) % u64) (count % u32)
-      stride := 0
-      sum := 0
-      if i < (length + u64 - 2) % u64 then
-        let a ← getAt counts i
-        let b ← getAt counts (i + 1)
-        let c ← getAt counts (i + 2)
-        limit := rleLimit3 a b c
-      else if i < length then
-        let a ← getAt counts i
-        limit := (256 * a) % u32
-      else limit := 0
-    stride := stride + 1
-    if i ≠ length then
-      let c ← getAt counts i
-      sum := (sum + c) % u64
-      if stride ≥ 4 then limit := ((256 * sum) % u64 + stride / 2) % u64 / stride
-      if stride = 4 then limit := (limit + 120) % u64
-  return counts
+      let good ← (if (symbol = 0 ∧ step ≥ 5) ∨ (symbol ≠ 0 ∧ step ≥ 7) then setRun i 1 step 0 good
+        else Out.ok good)
+      markLoop counts length c (i + 1) (if i ≠ length then ci else symbol) 1 good
+    else markLoop counts length c (i + 1) symbol (step + 1) good
+
+/-- the short-circuit `||` chain that ends a stride -/
+def strideBreak (counts good : List Nat) (length i limit : Nat) : Out Bool :=
+  if i = length then .ok true
+  else do
+    let g ← getAt good i
+    if g ≠ 0 then .ok true
+    else do
+      let g1 ← (if i ≠ 0 then getAt good (i - 1) else Out.ok 0)
+      if g1 ≠ 0 then .ok true
+      else do
+        let c ← getAt counts i
+        .ok (decide (((256 * c) % u32 + u64 - limit % u64 + 1240) % u64 ≥ 2 * 1240))
+
+/-- the new `limit` after a stride ended at `i` -/
+def strideLimit (counts : List Nat) (length i : Nat) : Out Nat :=
+  if i < (length + u64 - 2) % u64 then do
+    let a ← getAt counts i
+    let b ← getAt counts (i + 1)
+    let d ← getAt counts (i + 2)
+    .ok (rleLimit3 a b d)
+  else if i < length then do
+    let a ← getAt counts i
+    .ok ((256 * a) % u32)
+  else .ok 0
+
+/-- the value written over a finished stride -/
+def strideCount (stride sum : Nat) : Nat :=
+  let count := ((sum + stride / 2) % u64) / stride
+  let count := if count = 0 then 1 else count
+  if sum = 0 then 0 else count
+
+/-- the smoothing loop (`i` in `0..=length`), state `(counts, stride, limit, sum)` -/
+def strideLoop (good : List Nat) (length : Nat) :
+    Nat → Nat → List Nat → Nat → Nat → Nat → Out (List Nat)
+  | 0, _, counts, _, _, _ => .ok counts
+  | c + 1, i, counts, stride, limit, sum => do
+    let brk ← strideBreak counts good length i limit
+    let counts ← (if brk ∧ (stride ≥ 4 ∨ (stride ≥ 3 ∧ sum = 0)) then
+        setRun i (strideCount stride sum % u32) stride 0 counts else Out.ok counts)
+    let limit ← (if brk then strideLimit counts length i else Out.ok limit)
+    let stride := (if brk then 0 else stride) + 1
+    let sum := if brk then 0 else sum
+    if i ≠ length then do
+      let x ← getAt counts i
+      let sum := (sum + x) % u64
+      let limit := if stride ≥ 4 then ((256 * sum) % u64 + stride / 2) % u64 / stride else limit
+      let limit := if stride = 4 then (limit + 120) % u64 else limit
+      strideLoop good length c (i + 1) counts stride limit sum
+    else strideLoop good length c (i + 1) counts stride limit sum
+
+/-- `BrotliOptimizeHuffmanCountsForRle(length, counts, good_for_rle)`; returns `counts`. -/
+def optimizeHuffmanCountsForRle (length0 : Nat) (counts : List Nat) (goodForRle : List Nat) :
+    Out (List Nat) := do
+  let nonzeroCount ← countNonzeroLoop counts length0 0 0
+  if nonzeroCount < 16 then .ok counts
+  else do
+    let length ← trimLoop counts length0
+    if length = 0 then .ok counts
+    else do
+      let (nonzeros, smallest) ← smallestLoop counts length 0 0 1073741824
+      if nonzeros < 5 then .ok counts
+      else do
+        let counts ← (if smallest < 4 ∧ length - nonzeros < 6 then fillLoop (length - 1 - 1) 1 counts
+          else Out.ok counts)
+        if nonzeros < 28 then .ok counts
+        else do
+          -- `for rle_item in good_for_rle.iter_mut() { *rle_item = 0 }`
+          let good := goodForRle.map fun _ => 0
+          let symbol ← getAt counts 0
+          let good ← markLoop counts length (length + 1) 0 symbol 0 good
+          let c0 ← getAt counts 0
+          let c1 ← getAt counts 1
+          let c2 ← getAt counts 2
+          strideLoop good length (length + 1) 0 counts 0 (rleLimit3 c0 c1 c2) 0
 
 /-! ## `decide_over_rle_use`, `BrotliWriteHuffmanTree` -/
 
